@@ -46,7 +46,7 @@
 #define MANY_FID 3
 #define STK_BASE 131072
 #define MAXEV 200000
-#define RUNAWAY 100000
+#define RUNAWAY 20000
 #define CHILD_TIMEOUT 20
 
 typedef struct { int fid; long off; myth_thread_t self; } inv_t;
